@@ -138,37 +138,68 @@ Theorem C05_key_same_input_rejects : forall H G foo c c' r r' t,
 Proof. exact key_same_input_rejects. Qed.
 Print Assumptions C05_key_same_input_rejects.
 
-(* interactive key-share proof *)
+(* interactive key-share proof (code after de8b018 / 0abf554) *)
 Theorem C05_keyint_accept_iff : forall G key m1 c m2,
   keyint_verify G key m1 c m2 = Accept <->
-  check_element G m1 = true /\ Z.abs m2 < gq G /\
-  exists v kc ki, fpowm_aliased (gtg G) (tlen G) (gg G) m2 (gp G) = Some v /\ mpz_powm key c (gp G) = Some kc /\
+  check_element G m1 = true /\ check_element G key = true /\ Z.abs m2 < gq G /\
+  exists v kc ki, fpowm (gtg G) (tlen G) (gg G) m2 (gp G) = Some v /\ mpz_powm key c (gp G) = Some kc /\
                   invm kc (gp G) = Some ki /\ m1 = (v * ki) mod gp G.
 Proof. exact keyint_accept_iff. Qed.
 Print Assumptions C05_keyint_accept_iff.
 
-(* REFUTED on the code as it is: "a response of a different residue is refused" fails for the interactive key-share
-   verifier -- the sign of m_2 is ignored (finding keyint.m2.neg) *)
-Theorem C05_keyint_response_binding_refuted : forall G key m1 c m2,
-  keyint_verify G key m1 c (- m2) = keyint_verify G key m1 c m2.
-Proof. exact keyint_sign_ignored. Qed.
-Print Assumptions C05_keyint_response_binding_refuted.
+(* the public input `key` must be a member of the order-q subgroup in (0,p) *)
+Theorem C05_keyint_key_member : forall G key m1 c m2, keyint_verify G key m1 c m2 = Accept ->
+  0 < key < gp G /\ powm key (gq G) (gp G) = 1.
+Proof. exact keyint_key_member. Qed.
+Print Assumptions C05_keyint_key_member.
 
+(* a response in (-q,q) is raised as its residue modulo q: negative values are handled by inversion *)
+Theorem C05_fpowm_in_range : forall G : grp, 1 < gp G -> prime (gq G) -> powm (gg G) (gq G) (gp G) = 1 ->
+  bits (gq G) <= TMCG_MAX_FPOWM_T ->
+  forall x v, - gq G < x < gq G -> fpowm (gtg G) (tlen G) (gg G) x (gp G) = Some v -> v = powm (gg G) (x mod gq G) (gp G).
+Proof. exact fpowm_in_range. Qed.
+Print Assumptions C05_fpowm_in_range.
+
+(* unconditional binding of the interactive response (formerly refuted: -m_2 was accepted): two accepted responses
+   to the same (key, m_1, c) are the same residue modulo q, so a response of another residue is refused *)
+Theorem C05_keyint_response_bound : forall G : grp, 1 < gp G -> prime (gq G) -> powm (gg G) (gq G) (gp G) = 1 ->
+  gg G mod gp G <> 1 -> bits (gq G) <= TMCG_MAX_FPOWM_T ->
+  forall key m1 c m2 m2',
+  keyint_verify G key m1 c m2 = Accept -> keyint_verify G key m1 c m2' = Accept -> m2 mod gq G = m2' mod gq G.
+Proof. exact keyint_response_bound. Qed.
+Print Assumptions C05_keyint_response_bound.
+
+Theorem C05_interactive_mut_rejects : forall G : grp, 1 < gp G -> prime (gq G) -> powm (gg G) (gq G) (gp G) = 1 ->
+  gg G mod gp G <> 1 -> bits (gq G) <= TMCG_MAX_FPOWM_T ->
+  forall key m1 c m2 m2',
+  keyint_verify G key m1 c m2 = Accept -> m2 mod gq G <> m2' mod gq G -> keyint_verify G key m1 c m2' <> Accept.
+Proof. exact keyint_other_residue_rejected. Qed.
+Print Assumptions C05_interactive_mut_rejects.
+
+Theorem C05_invm_spec : forall a p i, 1 < p -> invm a p = Some i -> 0 <= i < p /\ (i * a) mod p = 1.
+Proof. exact invm_spec. Qed.
+Print Assumptions C05_invm_spec.
+
+(* OR proof (code after fae6d38) *)
 Theorem C05_or_accept_iff : forall H G y1 y2 g1 g2 c1 c2 r1 r2,
   or_verify H G y1 y2 g1 g2 c1 c2 r1 r2 = Accept <->
-  Z.abs r1 < gq G /\ Z.abs r2 < gq G /\
+  Z.abs r1 < gq G /\ Z.abs r2 < gq G /\ Z.abs c1 < gq G /\ Z.abs c2 < gq G /\
   exists a1 b1 a2 b2, mpz_powm y1 c1 (gp G) = Some a1 /\ mpz_powm g1 r1 (gp G) = Some b1 /\
     mpz_powm y2 c2 (gp G) = Some a2 /\ mpz_powm g2 r2 (gp G) = Some b2 /\
     (c1 + c2) mod gq G = H (or_hash_input G g1 y1 g2 y2 ((a1 * b1) mod gp G) ((a2 * b2) mod gp G)) mod gq G.
 Proof. exact or_accept_iff. Qed.
 Print Assumptions C05_or_accept_iff.
 
-(* REFUTED on the code as it is: "challenge parts not below q are refused" fails for OR_Verify (finding or.c.plusq) *)
-Theorem C05_or_challenge_range_refuted : forall H G y1 y2 g1 g2 c1 c2 r1 r2,
-  0 < gp G -> 0 < gq G -> 0 <= c1 -> powm y1 (gq G) (gp G) = 1 ->
-  or_verify H G y1 y2 g1 g2 (c1 + gq G) c2 r1 r2 = or_verify H G y1 y2 g1 g2 c1 c2 r1 r2.
-Proof. exact or_challenge_not_range_checked. Qed.
-Print Assumptions C05_or_challenge_range_refuted.
+Theorem C05_or_range_rules : forall H G y1 y2 g1 g2 c1 c2 r1 r2, or_verify H G y1 y2 g1 g2 c1 c2 r1 r2 = Accept ->
+  - gq G < c1 < gq G /\ - gq G < c2 < gq G /\ - gq G < r1 < gq G /\ - gq G < r2 < gq G.
+Proof. exact or_range_rules. Qed.
+Print Assumptions C05_or_range_rules.
+
+(* formerly refuted: a challenge part shifted by q is now refused instead of being reduced *)
+Theorem C05_or_plus_q_rejected : forall H G y1 y2 g1 g2 c1 c2 r1 r2, 0 < gq G -> 0 <= c1 ->
+  or_verify H G y1 y2 g1 g2 (c1 + gq G) c2 r1 r2 <> Accept.
+Proof. exact or_plus_q_rejected. Qed.
+Print Assumptions C05_or_plus_q_rejected.
 
 (* ---- non-vacuity / witnesses (p = 23, q = 11, g = 2, h = 3) ---------------------------------------------- *)
 Definition G23 : grp := mk_grp 23 11 2 3 2 3 256.
@@ -184,7 +215,8 @@ Proof.
   assert (n = 1 \/ n = 2 \/ n = 3 \/ n = 4 \/ n = 5 \/ n = 6 \/ n = 7 \/ n = 8 \/ n = 9 \/ n = 10) as C by lia.
   destruct C as [->|[->|[->|[->|[->|[->|[->|[->|[->| ->]]]]]]]]]; apply Zgcd_1_rel_prime; reflexivity.
 Qed.
-Example C05_witness_keyint_sign : keyint_verify G23 8 9 1 8 = Accept /\ keyint_verify G23 8 9 1 (-8) = Accept /\ (-8) mod 11 <> 8 mod 11.
+Example C05_nonvacuous_keyint : keyint_verify G23 8 9 1 8 = Accept /\ keyint_verify G23 8 9 1 (-8) = Reject /\
+  keyint_verify G23 8 9 1 (8 - 11) = Accept /\ keyint_verify G23 (23 - 8) 9 2 5 = Reject /\ bits (gq G23) <= TMCG_MAX_FPOWM_T.
 Proof. vm_compute. repeat split; congruence. Qed.
-Example C05_witness_or_plus_q : or_verify (fun _ => 7) G23 4 9 2 3 3 4 5 6 = Accept /\ or_verify (fun _ => 7) G23 4 9 2 3 (3 + 11) 4 5 6 = Accept.
+Example C05_nonvacuous_or : or_verify (fun _ => 7) G23 4 9 2 3 3 4 5 6 = Accept /\ or_verify (fun _ => 7) G23 4 9 2 3 (3 + 11) 4 5 6 = Reject.
 Proof. vm_compute. split; reflexivity. Qed.
